@@ -91,6 +91,8 @@ def renameVars (perm : List Str) : List NSeg → Option (List NSeg)
 
 /-- one column: the entry point called with the variable arguments `vals`, in prefix order -/
 def c08Cell (l : Lang) (e : Entry) (sc : Scope) (vals : List Str) (delim op : Str) : String :=
+  -- the exact class of the finding prefix-token-format-chars for this language: not evaluated
+  if !safeTokens l sc then "H" else
   let args := vals.take sc.vars.length
   match (normalize sc.name delim op (tmpl l e.role sc delim)).bind (renameVars (reachIdx l e sc.vars)),
         entryTopic l e sc args delim op with
@@ -110,12 +112,17 @@ def hasMarker (s : Str) : Bool := s.any fun c => c.toNat == 0xE000 || c.toNat ==
 
 def stepTopic (op : String) (args : List String) : Option String :=
   match op, args with
+  | "c08hz", [l, hv, c] =>
+    -- census of the finding's class: does language `l` read character `c` of a static token as text?
+    match (match l with | "go" => some Lang.go | "java" => some .java | "dart" => some .dart | "py" => some .py
+                        | "pyaio" => some .pyAsyncio | "pytor" => some .pyTornado | _ => none), strOfHex c with
+    | some lang, some [ch] => some (if hazard lang (hv == "1") ch then "fail" else "ok")
+    | _, _ => some "err:parse"
   | "c08", [p, n, d, os, vs] =>
     match strOfHex p, strOfHex n, strOfHex d, strListOfHex os, strListOfHex vs with
     | some pfx, some name, some delim, some ops, some vals =>
       if ops.isEmpty || (pfx :: name :: delim :: (ops ++ vals)).any hasMarker then some "err:parse" else
       let toks := toksOfPrefix pfx
-      if !plainTokens toks then some "excluded:format-chars" else
       if !(toks.all Tok.wf) || startsComment pfx || !isIdentifier name || !(ops.all isIdentifier) then some "err:parse" else
       let sc : Scope := ⟨name, toks⟩
       match extractVars sc.pfxStr with
